@@ -60,16 +60,28 @@ impl<C: Config, Q: Query> Snapshot<C, Q> {
             _ => false,
         };
 
+        // the callees read by the previous execution: only those are covered
+        // by the transitive firewall repair of the root of this request
+        let previous_callees = std::sync::Arc::new(
+            self.forward_edge_order().await.map_or_else(
+                fxhash::FxHashSet::default,
+                |order| order.iter_all_callees().collect(),
+            ),
+        );
+
         let tracked_engine = TrackedEngine {
             engine: self.engine().clone(),
             cache: ThreadLocal::new(),
             caller: CallerInformation::new(
-                CallerKind::Query(QueryCaller::new_with_pedantic_repair(
-                    *self.query_id(),
-                    CallerReason::RequireValue(Some(wait_group.worker())),
-                    lock_guard.query_computing().clone(),
-                    pedantic_repair,
-                )),
+                CallerKind::Query(
+                    QueryCaller::new_with_pedantic_repair(
+                        *self.query_id(),
+                        CallerReason::RequireValue(Some(wait_group.worker())),
+                        lock_guard.query_computing().clone(),
+                        pedantic_repair,
+                    )
+                    .with_previous_callees(previous_callees),
+                ),
                 caller_information.timestamp(),
                 caller_information.clone_active_computation_guard(),
             ),
